@@ -30,7 +30,7 @@ ASSUMPTIONS = [
 ]
 BOUNDS = {
     "quick": "V<=2, R<=2, full product of the listed alphabets (bounds none/tight-truncate), plus an R=3 slice for the stddev estimator",
-    "thorough": "V<=3, R<=3, full product of the listed alphabets",
+    "thorough": "V<=3 (V=3: no mask + 3 masks, P in {1,3,6}), R<=3, product of the listed alphabets without 'loose' bounds",
 }
 
 POOL = np.array(
@@ -316,11 +316,15 @@ def shards(tier: str, seed: int) -> list[dict[str, Any]]:
     vmax, rmax = (2, 2) if tier == "quick" else (3, 3)
     for V in range(1, vmax + 1):
         for mask in masks_for(V):
+            if V == 3 and mask is not None and mask not in ([True, False, True], [False, True, False], [True, True, False]):
+                continue  # V=3: no mask and three of the seven masks (all seven are exercised for V<=2 and by C09)
             for R in range(1, rmax + 1):
                 if tier == "quick" and mask is not None and all(mask):
                     continue  # same behaviour as mask None; kept in thorough
                 for P in sorted({1, V, V + 1, 2 * V}):
                     if tier == "quick" and P == 4:
+                        continue
+                    if tier == "thorough" and V == 3 and P == 4:
                         continue
                     for sampler in DESIGNS + BUILTIN:
                         if tier == "quick" and sampler in ("uniform", "lhs"):
@@ -354,6 +358,8 @@ def run_shard(shard: dict[str, Any]) -> core.ShardResult:
         if tier == "quick" and (bounds in ("loose", "tight-mirror") or gseed == 1):
             continue
         if tier == "quick" and flt == "con" and scaler:
+            continue
+        if tier == "thorough" and (bounds == "loose" or (wname == "uniform" and R > 1 and flt)):
             continue
         if sampler in BUILTIN and tier == "quick" and (gseed == 1 and shared):
             continue
